@@ -4,6 +4,7 @@ package gobinlog_test
 // `case` line: abstract input, input bytes, observed output (projected). TLC (Trace_Codec.tla) judges.
 
 import (
+	"time"
 	"fmt"
 	"math/rand"
 	"os"
@@ -355,6 +356,53 @@ func modeC12(e *Env) {
 			cellPairCase(e, f, c, genCell(e.R, &c, 0), genCell(e.R, &c, 0), c.Kind+"-pair")
 		}
 	}
+	// TIMESTAMP pairs on the SAME LOCAL DAY around a change of the zone's clock (what a "current local day" cache would
+	// get wrong): one instant before and one after the transition, decoded in both orders; and around local midnight
+	for _, tr := range zoneTransitions(e.N(6, 60)) {
+		day := time.Unix(tr, 0).In(time.Local)
+		midnight := time.Date(day.Year(), day.Month(), day.Day(), 0, 0, 0, 0, time.Local).Unix()
+		before := []int64{midnight + 60, tr - 1800, tr - 1}
+		after := []int64{tr, tr + 1, tr + 1800, tr + 2*3600 + 7, midnight + 23*3600}
+		for _, b := range before {
+			for _, a := range after {
+				if b < 0 || a < 0 || b >= tr || a < tr {
+					continue
+				}
+				fsp := e.R.Intn(7)
+				nb, _ := fracStorage(fsp)
+				r1 := append(beN(uint64(b), 4), beN(uint64(genFrac(e.R, fsp)), nb)...)
+				r2 := append(beN(uint64(a), 4), beN(uint64(genFrac(e.R, fsp)), nb)...)
+				cellPairCase(e, f, colTimestamp2(fsp), r1, r2, "timestamp2-dst-day")
+				cellPairCase(e, f, colTimestamp2(fsp), r2, r1, "timestamp2-dst-day")
+				cellPairCase(e, f, colTimestampOld(), leN(uint64(b), 4), leN(uint64(a), 4), "timestamp-dst-day")
+			}
+		}
+	}
+}
+
+// zoneTransitions returns up to n instants (unix seconds, 1971..2037) at which time.Local changes its UTC offset.
+func zoneTransitions(n int) []int64 {
+	var out []int64
+	off := func(t int64) int { _, o := time.Unix(t, 0).In(time.Local).Zone(); return o }
+	for y := 2037; y >= 1971 && len(out) < n; y-- {
+		for d := int64(0); d < 366 && len(out) < n; d++ {
+			lo := time.Date(y, 1, 1, 0, 0, 0, 0, time.UTC).Unix() + d*86400
+			hi := lo + 86400
+			if off(lo) == off(hi) {
+				continue
+			}
+			for hi-lo > 1 {
+				mid := (lo + hi) / 2
+				if off(mid) == off(lo) {
+					lo = mid
+				} else {
+					hi = mid
+				}
+			}
+			out = append(out, hi)
+		}
+	}
+	return out
 }
 
 // modeC13: strings / binaries verbatim for every declared length class.
@@ -454,8 +502,29 @@ func e2eMode(fam string, pickCol func(r *rand.Rand) Col, statePatterns bool) fun
 			l.Files = []*LogFile{f}
 			ts := uint32(1600000000)
 			nu := 2 + e.R.Intn(3)
+			// every third scenario re-declares the table between statements: the same id and name announced again with other
+			// column types / metadata (ALTER ... MODIFY; names, count and signedness stay), and the id re-used for another
+			// table with its own signedness (ids restart with the master); each rows event is decoded with ITS table map
+			variants := []*Table{t}
+			if i%3 == 2 {
+				t2 := &Table{ID: t.ID, DB: t.DB, Name: t.Name}
+				t3 := &Table{ID: t.ID, DB: t.DB, Name: t.Name + "x"}
+				for c := 0; c < ncols; c++ {
+					c2, c3 := pickCol(e.R), pickCol(e.R)
+					c2.Name, c2.Nullable, c2.Uns = t.Cols[c].Name, true, t.Cols[c].Uns
+					c3.Name, c3.Nullable = "d"+itoa(c), true
+					if c3.Kind == t.Cols[c].Kind {
+						c3.Uns = !t.Cols[c].Uns
+					}
+					t2.Cols = append(t2.Cols, c2)
+					t3.Cols = append(t3.Cols, c3)
+				}
+				variants = []*Table{t, t2, t, t3, t2}
+				nu = 4 + e.R.Intn(3)
+			}
 			for u := 0; u < nu; u++ {
 				kind := pickS(e.R, "write", "update", "delete")
+				t := variants[u%len(variants)]
 				ev := &Ev{K: kind, TS: ts, Tbl: t}
 				var pb, pa []bool
 				if statePatterns {
@@ -529,7 +598,16 @@ func init() {
 		}
 		return colInt(pickS(r, "tiny", "short", "int24", "long", "longlong"), r.Intn(2) == 0)
 	}, false)
+	c11Boundary := [][2]int{{65, 0}, {65, 30}, {64, 0}, {65, 1}, {1, 0}, {1, 1}, {30, 30}, {9, 0}, {10, 0}, {9, 9}, {10, 9}, {18, 0}, {18, 9},
+		{19, 9}, {19, 10}, {27, 9}, {28, 10}, {36, 18}, {38, 30}, {56, 0}, {57, 1}, {63, 30}, {2, 1}, {45, 9}}
+	c11Calls := 0
 	modes["c11s"] = e2eMode("c11", func(r *rand.Rand) Col {
+		// the boundary (precision, scale) pairs first, then random ones
+		c11Calls++
+		if c11Calls <= 2*len(c11Boundary) {
+			b := c11Boundary[(c11Calls-1)%len(c11Boundary)]
+			return colDecimal(b[0], b[1])
+		}
 		p := 1 + r.Intn(65)
 		ms := p
 		if ms > 30 {
@@ -765,6 +843,17 @@ func modeC09(e *Env) {
 			t.Cols = append(t.Cols, col)
 		}
 		rowsRandom(e, cfg, t, e.R.Intn(3), "small")
+	}
+	// (a1) every DECIMAL(p,s): the byte length of the cell depends on both parameters (all 1 520 valid pairs)
+	for p := 1; p <= 65; p++ {
+		for sc := 0; sc <= 30 && sc <= p; sc++ {
+			if !e.Thorough() && (p*31+sc+int(e.Seed))%3 != 0 && !(p >= 64 || p == sc || sc == 0 && p%9 <= 1) {
+				continue // quick: a third of the pairs (rotating with the seed) plus the boundary pairs
+			}
+			t := &Table{ID: uint64(1 + e.R.Intn(1<<20)), DB: "dd", Name: "tdec", Cols: []Col{colDecimal(p, sc), colInt("tiny", false)}}
+			t.Cols[0].Name, t.Cols[1].Name = "c0", "c1"
+			rowsRandom(e, cfgs[(p+sc)%len(cfgs)], t, 2, "decimal-all-ps")
+		}
 	}
 	// (a2) long values: length-prefixed kinds with 2..4 length bytes and payloads around 255/256, 64K and beyond
 	longCols := []Col{colBlob(2), colBlob(3), colBlob(4), colGeometry(2), colGeometry(4), colVarchar(65535), colVarchar(300), colChar(300), colChar(1023)}
@@ -1048,12 +1137,19 @@ func modeC16(e *Env) {
 			for _, b := range f.HeaderSizes {
 				hs = append(hs, int(b))
 			}
+			// the accessor, for every event type the table describes
+			hacc := []int{}
+			accPanic := safely(func() {
+				for t := 1; t <= len(f.HeaderSizes); t++ {
+					hacc = append(hacc, int(f.HeaderSize(byte(t))))
+				}
+			}).panicked
 			emitCase(e, M{"fn": "ev.fde", "cls": "fde", "alg": alg, "ts": u32s(ts), "sid": u32s(sid), "np": u32s(np), "len": len(fraw),
 				"flags": int(flags), "create4": B(le32(fcreate)), "raw": B(fraw),
 				"srvver": B(cfg.SrvVer), "sizes": B(cfg.postHeaderLens()),
 				"obs": M{"err": ferr != nil, "panic": rec.panicked, "valid": fev.IsValid(), "isfde": fev.IsFormatDescription(), "ts": u32s(fev.Timestamp()),
 					"np": strconv.FormatInt(fev.NextPosition(), 10), "version": int(f.FormatVersion), "srvver": B(f.ServerVersion), "hlen": int(f.HeaderLength),
-					"alg": int(f.ChecksumAlgorithm), "sizes": hs}})
+					"alg": int(f.ChecksumAlgorithm), "sizes": hs, "sizesByAccessor": hacc, "accPanic": accPanic}})
 			if ferr != nil || rec.panicked {
 				continue
 			}
@@ -1246,6 +1342,24 @@ func modeC17a(e *Env) {
 			o["accpanic"] = r2.panicked
 		}
 		emitCase(e, M{"fn": "isvalid", "cls": cls, "buf": B(buf), "obs": o})
+	}
+	// events larger than one protocol packet (16 MiB - 1): the master splits them over several packets and the driver
+	// reassembles them, so they reach the validity test as one buffer. Only the header and the length travel in the trace.
+	for _, n := range []int{1<<24 - 2, 1<<24 - 1, 1 << 24, 1<<24 + 1, 1<<24 + 19, 1<<24 + 4115, 1 << 25, 3<<24 + 5} {
+		for _, d := range []int{0, 0, -1, 1} {
+			buf := make([]byte, n)
+			copy(buf, randBytes(e.R, 19))
+			buf[4] = []byte{30, 31, 23, 2}[e.R.Intn(4)]
+			lf := uint32(n + d)
+			buf[9], buf[10], buf[11], buf[12] = byte(lf), byte(lf>>8), byte(lf>>16), byte(lf>>24)
+			ev := replication.NewMysql56BinlogEvent(buf)
+			valid := false
+			rec := safely(func() { valid = ev.IsValid() })
+			emitCase(e, M{"fn": "isvalid.big", "cls": "big-event", "n": n, "hdr": B(buf[:19]), "obs": M{"valid": valid, "panic": rec.panicked}})
+			if !e.Thorough() && d != 0 {
+				break
+			}
+		}
 	}
 	// structured classes: every length 0..64 x length field in {len-1, len, len+1, 0, 18, 19, 2^32-1} x some type bytes
 	for l := 0; l <= 64; l++ {
